@@ -81,6 +81,7 @@ Clauses(s, e) ==
 (*   T  b (both ends on token boundaries) | in | str | cmt (inside a token)     *)
 (*   F  comma-terminated flags read off the texts: same ins del blank nl indent *)
 (*      blankln tws semiafter hash semi bslash kw cross inline elifchain        *)
+(*      conteof deg                                                             *)
 (*   S  effect on the statement skeleton (statement spans of the text after):   *)
 (*      invalid (no parse) | top (no enclosing statement) | local (exactly one  *)
 (*      statement at the same depth stands where the enclosing one stood and    *)
@@ -182,6 +183,15 @@ ParentIdx(P, i) ==
   IN IF i = 0 \/ C = {} THEN 0 ELSE CHOOSE j \in C : \A k \in C : k <= j
 ElifChain(P, i) == i # 0 /\ P[i][1] = "Elif" /\ ParentIdx(P, i) # 0 /\ P[ParentIdx(P, i)][1] = "Elif"
 
+(* the new source ends in a line continuation: backslash, newline, end of text  *)
+ContEOF(new) == Len(new) >= 2 /\ new[Len(new)] = <<>> /\ LastIs(new[Len(new) - 1], 92)
+
+(* a statement that starts on the first line at column 1, 2 or 3 touches the     *)
+(* rectangle (fst_raw.py raises NotImplementedError for it)                      *)
+Degenerate(P, R) ==
+  \E j \in 1..Len(P) : /\ P[j][2] = 0 /\ P[j][3] \in 1..3
+                        /\ PosLE(P[j][2], P[j][3], R[3], R[4]) /\ PosLE(R[1], R[2], P[j][4], P[j][5])
+
 Inline(tx, P, i) == i # 0 /\ ~Blank(SubSeq(Line(tx, P[i][2]), 1, P[i][3]))
 
 Flag(b, name) == IF b THEN name \o "," ELSE ""
@@ -202,6 +212,8 @@ FxPart(tx, new, T, P, i, R, p) ==
   \o Flag(Crosses(P, R), "cross")
   \o Flag(Inline(tx, P, i), "inline")
   \o Flag(ElifChain(P, i), "elifchain")
+  \o Flag(ContEOF(new), "conteof")
+  \o Flag(Degenerate(P, R), "deg")
 
 (* effect on the statement skeleton: is it confined to the enclosing statement? *)
 SameRow(a, b) == a[1] = b[1] /\ a[9] = b[9]
